@@ -585,6 +585,7 @@ class TaborProgram(ProgramEntry):
 
 def _check_merge_with_next(program, n, max_seq_len):
     if (program[n].repetition_count == 1 and program[n+1].repetition_count == 1 and
+            program[n].volatile_repetition is None and program[n+1].volatile_repetition is None and
             len(program[n]) + len(program[n+1]) < max_seq_len):
         program[n][len(program[n]):] = program[n + 1][:]
         program[n + 1:n + 2] = []
